@@ -5,6 +5,7 @@ import (
 	"errors"
 	"fmt"
 	"net"
+	"time"
 
 	"github.com/vipnode/vipnode/v2/ethnode"
 	"github.com/vipnode/vipnode/v2/internal/verifapi"
@@ -340,6 +341,14 @@ func VerifC19Refused() {
 func VerifC19Concrete() {
 	nodeID := verifapi.NodeID(0)
 	hosts := []string{"192.0.2.7", "pool.example", "2001:db8::7", "fe80::1%eth0", "fe80::1%25", "FE80::A", "xn--bcher-kva.example", "10.0.0.1"}
+	viaPool := verifapi.Param("viapool", 0) == 1
+	if viaPool {
+		// through the pool's connect endpoint, with DNS names as long as real ones get (a name may have 253 bytes)
+		hosts = []string{"192.0.2.7", "2001:db8::7", "pool.example",
+			"ec2-203-0-113-25.ap-northeast-1.compute.amazonaws.com",
+			"node-7.eth-mainnet.full-nodes.internal.some-quite-long-organisation-name.cloud-provider-region-eu-central-1.example.org",
+			"a123456789b123456789c123456789d123456789e123456789f123456789abc.a123456789b123456789c123456789d123456789e123456789f123456789abc.a123456789b123456789c123456789d123456789e123456789f123456789abc.a123456789b123456789c123456789d123456789e123456789f1234567.example"}
+	}
 	src := hosts[verifapi.Choose("source", len(hosts))]
 	uri := ""
 	wantHost, wantPort := src, "30303"
@@ -365,7 +374,30 @@ func VerifC19Concrete() {
 		}
 		uri = "enode://" + nodeID + "@" + hostport
 	}
-	got, err := normalizeNodeURI(uri, nodeID, src, "30303")
+	var got string
+	var err error
+	if viaPool {
+		db := newVerifStore()
+		p := New(db, nil)
+		verifapi.SetNow(time.Unix(1600000000, 0))
+		addr := src + ":51234"
+		if hasByte(src, ':') {
+			addr = "[" + src + "]:51234"
+		}
+		req := ConnectRequest{NodeInfo: ethnode.UserAgent{Kind: ethnode.Geth, IsFullNode: true}, NodeURI: uri}
+		nonce := VerifFreshNonce()
+		_, err = p.Connect(jsonrpc2.VerifCtxWithService(context.Background(), &VerifHost{Name: "conn", Addr: addr}), sigs.SignFor(nodeID, "vipnode_connect", nonce, req), nodeID, nonce, req)
+		if err == nil {
+			n, gerr := db.GetNode(store.NodeID(nodeID))
+			if gerr != nil {
+				verifapi.Unreachable("c19.concrete.stored")
+				return
+			}
+			got = n.URI
+		}
+	} else {
+		got, err = normalizeNodeURI(uri, nodeID, src, "30303")
+	}
 	verifapi.Reach("c19.concrete")
 	if err != nil {
 		verifapi.Assert(false, "c19.well-formed-address-accepted")
